@@ -195,3 +195,42 @@ def correspond(ctx):
 
 def search(ctx, why): return
 def replay(ctx, payload): correspond(ctx)
+
+def build_tokens(toks, vars_, M, cv):
+    """rebuild a real modeling object from a prefix token string (dense constants); used by replays and debugging"""
+    toks = toks.split() if isinstance(toks, str) else toks
+    pos = [0]
+    def vec(s): return [] if s == '-' else [float(Fraction(a)) for a in s.split(',')]
+    def nxt():
+        t = toks[pos[0]]; pos[0] += 1; return t
+    def rec():
+        t = nxt()
+        if t == 'var': return vars_[int(nxt())]
+        if t == 'const':
+            v = vec(nxt()); return v[0] if len(v) == 1 else cv.matrix(v)
+        if t in ('add', 'sub', 'max2', 'min2', 'iadd', 'isub'):
+            a = rec(); b = rec()
+            if t == 'add': return a + b
+            if t == 'sub': return a - b
+            if t == 'max2': return M.max(a, b)
+            if t == 'min2': return M.min(a, b)
+            h = +a
+            if t == 'iadd': h += b
+            else: h -= b
+            return h
+        if t == 'neg': return -rec()
+        if t == 'abs': return abs(rec())
+        if t == 'sum': return M.sum(rec())
+        if t == 'maxv': return M.max(rec())
+        if t == 'minv': return M.min(rec())
+        if t == 'smul': c = float(Fraction(nxt())); return c * rec()
+        if t == 'sdiv': c = float(Fraction(nxt())); return rec() / c
+        if t == 'idx': i = int(nxt()); return rec()[i]
+        if t == 'slice': lo = int(nxt()); hi = int(nxt()); return rec()[lo:hi]
+        if t == 'dot': c = cv.matrix(vec(nxt())); return M.dot(c, rec())
+        if t == 'mmul':
+            rows = [vec(r) for r in nxt().split(';')]
+            A = cv.matrix([[rows[i][j] for i in range(len(rows))] for j in range(len(rows[0]))])
+            return A * rec()
+        raise ValueError('token ' + t)
+    return rec()
